@@ -63,6 +63,12 @@ def make(bootstrap=True, frozen=False):
         bag: KeyedSet[Item, str] = Attr(default_factory=KeyedSet)
         lst: List[Item] = []
         y: int = 0
+        kl2: KeyedList[Item, str] = []  # a default that conforms only after the assignment pipeline has prepared it
+
+        def _prepare_item(self, it):  # item preparer returning NEW objects for some items
+            if hasattr(it, "v") and isinstance(it.v, int) and it.v < 0:
+                return Item(it.k, v=0)
+            return it
 
     @spec_class(do_not_copy=["big"], **kw)
     class K5:  # prepared / derived / do_not_copy
@@ -88,6 +94,10 @@ def make(bootstrap=True, frozen=False):
         @spec_property(cache=True, invalidated_by=["x"])
         def p(self):
             return self.x * 2
+
+        @spec_property(cache=True, invalidated_by=["x"])
+        def pl(self):  # cached derived value that is a MUTABLE object
+            return [self.x]
 
     @spec_class(**kw)
     class Base:
@@ -116,13 +126,13 @@ ATTRS = {
     "K1": ["x", "n", "s", "f", "o", "u", "lit"],
     "K2": ["nums", "opts", "vals", "tags", "y", "extras", "flags", "marks"],
     "K3": ["inner", "inner2", "kids", "by_name", "y"],
-    "K4": ["items", "bag", "lst", "y"],
+    "K4": ["items", "bag", "lst", "y", "kl2"],
     "K5": ["x", "w", "z", "big", "pw", "scores", "src", "dz"],
     "Base": ["x", "ys"],
     "Sub": ["x", "ys", "y"],
     "Plain": ["x", "ys", "y"],
 }
-PROPS = {"K5": ["p"]}
+PROPS = {"K5": ["p", "pl"]}
 
 # defaults as a newly constructed instance would hold them (fresh objects each call)
 DEFAULTS = {
@@ -150,7 +160,7 @@ TYPES = {
     "K1": {"x": int, "n": int, "s": str, "f": float, "o": Optional[str], "u": Union[int, str], "lit": Literal["r", "w", 3]},
     "K2": {"nums": List[int], "opts": Dict[str, int], "vals": Set[int], "tags": List[str], "y": int, "extras": List[int], "flags": Dict[str, int], "marks": Set[int]},
     "K3": {"inner": "Inner", "inner2": "Inner", "kids": ("list", "Inner"), "by_name": ("dict", str, "Inner"), "y": int},
-    "K4": {"items": ("klist", "Item"), "bag": ("kset", "Item"), "lst": ("list", "Item"), "y": int},
+    "K4": {"items": ("klist", "Item"), "bag": ("kset", "Item"), "lst": ("list", "Item"), "y": int, "kl2": ("klist", "Item")},
     "K5": {"x": int, "w": int, "z": int, "big": List[int], "pw": int, "scores": List[int], "src": int, "dz": int},
     "Base": {"x": int, "ys": List[int]},
     "Sub": {"x": int, "ys": List[int], "y": int},
